@@ -198,6 +198,7 @@ pub fn configs_c13(tier: Tier) -> Vec<Box<dyn Config>> {
     let sse2 = super::width() == 16;
     let q = tier == Tier::Quick;
     let mut v: Vec<Box<dyn Config>> = Vec::new();
+    v.push(Box::new(super::rehash::RehashGrammar { tier }));
     if sse2 {
         v.push(churn(Plan::Zero, 1, if q { 15 } else { 19 }, tier, false));
         v.push(churn_seeded(tier));
